@@ -85,6 +85,37 @@ def _filter_closure_table(ctx, F, c, address_cap="address"):
     return role_eq, addr_cmp
 
 
+def broker_view_lossless(ctx, rid):
+    """the served node / peer lists are built from the cluster's node list without any element-dropping operation
+    (shared by C01: a dropped master = slots without an owner in that view)"""
+    from ..lib import lossy_ops
+    F = ctx.F
+    n = 0
+    for b in F.all_bodies(bins=False):
+        if not b.path.startswith("broker::query::") or b.is_mock() or "tests::" in b.path or b.kind == "Promoted":
+            continue
+        du = None
+        for bb, t in b.calls():
+            c = callee_of(t) or ""
+            if c.endswith("common::cluster::Proxy::new"):
+                args = (("nodes", 3), ("peers", 4))
+            elif c.endswith("common::cluster::Cluster::new"):
+                args = (("nodes", 2),)
+            else:
+                continue
+            du = du or DefUse(b)
+            for label, ai in args:
+                sl_ = du.slice_operand(t["args"][ai])
+                if not (sl_.has_call("get_nodes") or sl_.has_field("ClusterStore", "chunks") or sl_.calls or sl_.decls):
+                    continue   # an empty list literal (free proxy)
+                n += 1
+                lo = lossy_ops(b, sl_)
+                ctx.check(not lo, rid, "view-lossless:%s:%s" % (b.path.rsplit("::", 1)[-1], label), site(b, lo[0][1]) if lo and lo[0][1] is not None else site(b, bb),
+                          ok="no element-dropping operation between the stored nodes and the served %s" % label,
+                          bad="the served %s pass through %s, which can drop nodes (e.g. a second master behind the same proxy replaces the first): their slots have no owner in this view" % (label, [x[0] for x in lo]))
+    ctx.floor(rid, "served node / peer lists examined", n, 3)
+
+
 def _broker(ctx):
     F = ctx.F
     b = F.one("MetaStoreQuery::get_proxy_by_address")
@@ -99,8 +130,11 @@ def _broker(ctx):
     bb, t = news[0]
     nodes = du.slice_operand(t["args"][3]); peers = du.slice_operand(t["args"][4])
     ctx.check(nodes.has_call("Cluster::get_nodes") and nodes.has_call("filter"), "C02.D1", "broker:nodes", site(b, bb), ok="nodes = cluster nodes filtered", bad="nodes argument is not the filtered node list")
-    ctx.check(peers.has_call("Cluster::get_nodes") and peers.has_call("group_by"), "C02.D1", "broker:peers-grouped-per-proxy", site(b, bb),
+    from ..lib import lossy_ops
+    grouped = any(x[0].startswith("collect-into-") and "Map" in x[0] for x in lossy_ops(b, peers)) or peers.has_call("group_by") or peers.has_call("into_group_map") or (peers.has_call("entry") and (peers.has_call("extend") or peers.has_call("append") or peers.has_call("push")))
+    ctx.check(peers.has_call("Cluster::get_nodes") and grouped, "C02.D1", "broker:peers-grouped-per-proxy", site(b, bb),
               ok="peers are grouped per proxy address (one entry per peer proxy)", bad="peer entries are not grouped per proxy address: the coordinator keys its peer map by proxy address and would overwrite entries")
+    broker_view_lossless(ctx, "C02.D1")
     ctx.check(du.slice_operand(t["args"][1]).has_param(2), "C02.D1", "broker:address", site(b, bb), ok="served under the queried address", bad="address argument is not the queried address")
     # filter closures
     kids = F.children(b)
